@@ -164,6 +164,23 @@ def run(prop, tier, seed, replay=None):
                         seen.add(key)
                         if prop == 'C07':
                             todo_rule.append(('Q-%06d' % len(todo_rule), c['func'], c['lin'], ALL_MODES, None))
+                    if prop == 'C07':
+                        # one bare production with two or three linearizations in ONE grammar (a node label sequence that
+                        # occurs once with a gap and once without): each is binarized on its own terms, in whatever
+                        # order the dict holds them
+                        by_func = {}
+                        for key in sorted(seen):
+                            c = json.loads(key)
+                            by_func.setdefault(json.dumps(c['func']), []).append(c['lin'])
+                        for fkey in sorted(by_func):
+                            lins = by_func[fkey]
+                            rnd.shuffle(lins)
+                            i = 0
+                            while i + 1 < len(lins):
+                                k_ = 3 if (i // 2) % 3 == 2 and i + 2 < len(lins) else 2
+                                todo_rule.append(('M-%06d' % len(todo_rule), json.loads(fkey), {'lins': lins[i:i + k_]},
+                                                  ALL_MODES, None))
+                                i += k_
             rep.exhaustive = True
             nrand = 0 if prop == 'C09' else (200 if tier == 'quick' else 2500)
             for k in range(nrand):
